@@ -4,7 +4,7 @@ arch = {"dim": 1|2, "c0": int, "sp": int, "nodes": [node, ...]}
 node = {"op": ..., "ins": [i, ...], "out": int, "k": int, "d": int, "s": int, "bias": bool, "bn": bool,
         "dw": bool, "excl": bool, "causal": bool, "reuse": int}
 Tensor 0 is the network input, tensor i (1-based) the output of nodes[i-1]; the network output is
-the last tensor.  ops: conv | lin | relu | sig | tanh | silu | drop | bns (standalone BatchNorm) | pool | flat | gsq | add | cat | catt | id  (gsq = AdaptiveAvgPool1d(1) followed by
+the last tensor.  ops: conv | lin | relu | relu6 | sig | tanh | silu | drop | lsm (log_softmax over the features) | bns (standalone BatchNorm) | pool | flat | gsq | add | cat | catt | id  (gsq = AdaptiveAvgPool1d(1) followed by
 .squeeze(d), d = node field 'd' in {2, -1}).
 All layers are plain torch.nn leaf modules in a ModuleDict; forward() iterates over the node list in
 Python, so torch.fx traces exactly the intended graph.
@@ -17,7 +17,7 @@ import torch
 import torch.nn as nn
 
 DEFAULTS = {"ins": [], "out": 0, "k": 1, "d": 1, "s": 1, "bias": True, "bn": False, "dw": False,
-            "excl": False, "causal": False, "reuse": 0, "valid": False, "pm": "zeros", "sym": False}
+            "excl": False, "causal": False, "reuse": 0, "valid": False, "pm": "zeros", "sym": False, "sub": False}
 
 
 def norm_node(n: Dict[str, Any]) -> Dict[str, Any]:
@@ -48,7 +48,7 @@ def shapes(arch) -> List[Dict[str, int]]:
             sh.append({"ch": i0["ch"] if n["dw"] else n["out"], "sp": sp, "spw": spw, "flat": False})
         elif op == "lin":
             sh.append({"ch": n["out"], "sp": 1, "spw": 1, "flat": True})
-        elif op in ("relu", "id", "sig", "tanh", "silu", "drop", "bns"):
+        elif op in ("relu", "id", "sig", "tanh", "silu", "drop", "bns", "relu6", "lsm"):
             sh.append(dict(i0))
         elif op == "pool":
             sh.append({"ch": i0["ch"], "sp": i0["sp"] // 2, "spw": i0["spw"] // 2 if arch["dim"] == 2 else 1, "flat": False})
@@ -133,6 +133,9 @@ class GrammarNet(nn.Module):
             elif op == "id":
                 self.layers[lname(idx)] = nn.Identity()
                 names.append(lname(idx))
+            elif op == "relu6":
+                self.layers[lname(idx)] = nn.ReLU6()
+                names.append(lname(idx))
             elif op == "bns":       # standalone BatchNorm (not directly fused by construction: see FeatGraph)
                 i0 = sh[n["ins"][0]]
                 self.layers[lname(idx)] = (nn.BatchNorm2d if (dim == 2 and not i0["flat"]) else nn.BatchNorm1d)(i0["ch"])
@@ -162,7 +165,7 @@ class GrammarNet(nn.Module):
         t = [x]
         for op, names, ins in self.plan:
             if op == "add":
-                y = t[ins[0]] + t[ins[1]]
+                y = (t[ins[0]] - t[ins[1]]) if self.arch["nodes"][len(t) - 1]["sub"] else (t[ins[0]] + t[ins[1]])
             elif op == "cat":
                 y = torch.cat([t[i] for i in ins], dim=1)
             elif op == "catt":
@@ -175,6 +178,8 @@ class GrammarNet(nn.Module):
                 y = torch.sigmoid(t[ins[0]])
             elif op == "tanh":
                 y = torch.tanh(t[ins[0]])
+            elif op == "lsm":
+                y = torch.nn.functional.log_softmax(t[ins[0]], dim=1)
             elif op == "gsq":
                 y = self.layers[names[0]](t[ins[0]]).squeeze(self.arch["nodes"][len(t) - 1]["d"])
             else:
